@@ -490,7 +490,16 @@ class Oracle:
         o0, o1 = ob0["regs"][r], ob1["regs"][r]
         if k in ("en", "with"):
             if out[0] == "failed":
-                changed = [c for c in ("active", "layers", "answers") if o0[c] != o1[c] and o0[c] is not None and o1[c] is not None]
+                # public observables only: the active contexts and the answers (the number of
+                # ChainMap layers is compared with the model, it is not part of the statement)
+                changed = [c for c in ("active", "answers") if o0[c] != o1[c] and o0[c] is not None and o1[c] is not None]
+                if changed == ["answers"]:
+                    diff = [p for p, a, b in zip(self.probes, o0["answers"], o1["answers"]) if a != b]
+                    if all(probe_units(p) & self.overlay_defined for p in diff):
+                        self.report(f"failed-activation:overlay-defined-unit:{probe_name(diff[0])}",
+                                    f"{k} {list(op[1])} raised {out[2]}; afterwards {probe_name(diff[0])} answers differently "
+                                    "(unit defined while a redefining context was active)")
+                        return
                 if changed:
                     self.report(f"failed-activation:{out[2]}:{'+'.join(changed)}",
                                 f"{k} {list(op[1])} raised {out[2]} but changed {changed}: active {o0['active']} -> {o1['active']}, layers {o0['layers']} -> {o1['layers']}")
@@ -597,6 +606,7 @@ ALPHABET = {
     "mid": [("en", ("ra",), ()), ("en", ("rb",), ()), ("en", ("rc",), ()), ("en", ("rd",), ()),
             ("dis", None), ("dis", 1), ("with", ("rb",), ()), ("with", ("rc",), ()), ("exit",), ("raise",),
             ("probe", ("base", U(yard=1))), ("def", "smoot")],
+    "tiny": [("en", ("rb",), ()), ("dis", None), ("with", ("rc",), ()), ("exit",), ("def", "smoot")],
     "full": [("en", ("ra",), ()), ("en", ("ra",), kwt(n=5)), ("en", ("rb",), ()), ("en", ("rc",), ()),
              ("en", ("rd",), ()), ("en", ("rb", "ra"), ()), ("dis", None), ("dis", 1),
              ("with", ("ra",), ()), ("with", ("rb",), ()), ("with", ("rc",), kwt(k=3)), ("with", ("rd",), ()),
@@ -638,13 +648,14 @@ def explore_subtree(args):
     Coq case (the chain of prefix nodes ending in the subtree), the interned definitions it uses,
     oracle findings and the node count."""
     prefix, alphabet, depth = args
-    findings, count = {}, [0]
+    findings, count, nontriv = {}, [0], [0]
     above = []
     it = Interner()
 
     def node(seq):
         steps, found = run_sequence(seq, fast=len(seq) > 2)
         count[0] += 1
+        nontriv[0] += any(o[0] in ("en", "with") for o in seq)
         for key, desc, n in found:
             if key not in findings or len(findings[key][1]) > n:
                 findings[key] = (desc, [op_json(o) for o in seq[:n]])
@@ -663,7 +674,7 @@ def explore_subtree(args):
     t = node(list(prefix))
     for op, (out, ob) in reversed(list(zip(prefix[:-1], above))):
         t = coq_node(0, op, out, ob, (0,), [t], it)
-    return prefix, f"KRun SUv [{t}]", it.defs, findings, count[0]
+    return prefix, f"KRun SUv [{t}]", it.defs, findings, count[0], nontriv[0]
 
 
 def valid_prefixes(alphabet, k=2):
@@ -836,7 +847,7 @@ def detect_quirks(ck):
 # ------------------------------------------------------------------ the check
 PLAN = {
     "quick": dict(single=[("full", 3), ("mid", 4), ("core", 5)], two=4, random=(150, 30)),
-    "thorough": dict(single=[("full", 4), ("mid", 5), ("core", 7)], two=5, random=(1500, 30)),
+    "thorough": dict(single=[("full", 4), ("mid", 5), ("core", 6), ("tiny", 7)], two=5, random=(1500, 30)),
 }
 
 
@@ -985,6 +996,7 @@ def run(ck):
 
     add_findings({k: (d, o) for k, d, o in wfound})
     cases = []       # (term, defs, nodes, description)
+    nontrivial = 0
     with mp.Pool(min(os.cpu_count() or 4, 16)) as pool:
         jobs = []
         for aname, depth in plan["single"]:
@@ -998,10 +1010,11 @@ def run(ck):
         jobr = pool.map_async(run_random, [(ck.seed * 1000003 + i, ln) for i in range(nr)], chunksize=4)
         for aname, depth, job in jobs:
             total = 0
-            for prefix, term, defs, fs, n in job.get():
+            for prefix, term, defs, fs, n, nt in job.get():
                 cases.append((term, defs, n, {"alphabet": aname, "depth": depth, "prefix": [op_json(o) for o in prefix]}))
                 add_findings(fs)
                 total += n
+                nontrivial += nt
             ck.count(f"exhaustive {aname} depth {depth}: nodes", total)
             ck.extra.setdefault("exhaustive_nodes", {})[f"{aname}:{depth}"] = total
             ck.evaluations += total
@@ -1018,8 +1031,8 @@ def run(ck):
         ck.count("random sequences", nr)
         ck.evaluations += nr * ln
     ck.extra["impl_side_s"] = round(time.time() - t0, 1)
-    # every tree node is a distinct operation sequence; all but the few probe/define-only ones activate a context
-    ck.nontrivial = set(range(ck.evaluations))
+    # every tree node is a distinct operation sequence; non-trivial ones contain an activation
+    ck.nontrivial = set(range(nontrivial + total + nr))
     ck.samples = [cases[i][3] for i in range(0, len(cases), max(1, len(cases) // 6))][:8]
 
     # ---------------------------------------------------------- differ inside Coq
